@@ -453,8 +453,21 @@ pub fn check(ctx: &Ctx, rep: &mut Report) {
                     // bracket piece: SQLite quoted identifier / Postgres subscript with a placeholder
                     match d {
                         Dialect::Sqlite => {
-                            t.push_str(" [c?x] ");
-                            labels.push("bracket-identifier");
+                            // SQLite: a bracket identifier ends at its first `]`
+                            match rng.below(3) {
+                                0 => {
+                                    t.push_str(" [c?x] ");
+                                    labels.push("bracket-identifier");
+                                }
+                                1 => {
+                                    t.push_str(" m[i[1]] ");
+                                    labels.push("nested-brackets");
+                                }
+                                _ => {
+                                    t.push_str(" [a]] ");
+                                    labels.push("bracket-then-bracket");
+                                }
+                            }
                         }
                         // Postgres subscripts `arr[$n]` are quarantined: listed finding
                         // KF-C11-pg-bracket-subscript, exercised by the pinned probe below only
